@@ -80,7 +80,7 @@ class SimEnv(gym.Env):
     metadata = {"render_modes": []}
 
     def __init__(self, script, obs_dim=3, act_dim=1, discrete=0, low=-1.0, high=1.0,
-                 tail_len=7, tail_end="trunc", max_steps=10_000, space_seed=0, name="env", act_dtype="float32"):
+                 tail_len=7, tail_end="trunc", max_steps=10_000, space_seed=0, name="env", act_dtype="float32", reward_type="float", gid_offset=0):
         self.script = script
         self.obs_dim = obs_dim
         self.observation_space = gym.spaces.Box(-np.inf, np.inf, (obs_dim,), np.float32)
@@ -97,9 +97,11 @@ class SimEnv(gym.Env):
         self.tail_len, self.tail_end = tail_len, tail_end
         self.max_steps = max_steps
         self.name = name
+        self.reward_type = reward_type  # "int": integral rewards are returned as Python int (gymnasium only asks for SupportsFloat)
         # log & state
         self.log = []  # events (dicts)
-        self.g = 0  # observation counter
+        self.g = gid_offset  # observation counter (an offset separates the tag ranges of parallel environments)
+        self.gid_offset = gid_offset
         self.ep = 0  # episode counter (1-based once reset)
         self.t = 0
         self.n_steps = 0
@@ -177,6 +179,8 @@ class SimEnv(gym.Env):
         term = bool(last and e["end"] in ("term", "both"))
         trunc = bool(last and e["end"] in ("trunc", "both"))
         r = self.reward_for(self.ep, self.t - 1)
+        if self.reward_type == "int" and float(r).is_integer():
+            r = int(r)
         obs = self._new_obs()
         ev = {"k": "step", "i": self.n_steps - 1, "a": a, "gid0": gid_before, "gid1": self.cur_gid, "r": r,
               "term": term, "trunc": trunc, "ep": self.ep, "t": self.t - 1, "sampled": list(self.sample_since_step),
